@@ -103,10 +103,19 @@ def check_monomial(chk, v, name, coefs, minus_one):
         chk.vcount(v.name, "R1.monomial_functions")
         return
     guards = {tuple(p["guards"]) for p in stores}
-    if ok:
+    if True:
+        # (also when the case analysis reports a mismatch: with alternatives it does not know, the mismatch may be its own)
         if len(guards) == 2:
             g1, g2 = sorted(guards, key=repr)
             comp = len(g1) == 1 and len(g2) == 1 and (g1[0] == sym.unop("!", g2[0]) or g2[0] == sym.unop("!", g1[0]))
+
+            def order_test(g):
+                while g[0] == "un" and g[1] == "!":
+                    g = g[2]
+                return g[0] == "op" and g[1] in ("<", "<=", ">", ">=")
+            # (the split the case analysis knows is the one into a < N and a >= N; an equality test -- a shortcut for one exponent --
+            # is an alternative it does not evaluate)
+            comp = comp and order_test(g1[0])
             shape = None if comp else "the two guard alternatives %s / %s are not complementary" % ([sym.show(x) for x in g1], [sym.show(x) for x in g2])
         else:
             shape = None if (len(guards) == 1 and guards == {()}) else "guard structure %s" % [[sym.show(x) for x in g] for g in guards]
